@@ -433,6 +433,57 @@ def _real_socketpair_smoke(t: Tally):
         b.close()
 
 
+def strict_probe():
+    """Subprocess entry, started with `python -bb` (str() of a bytes object and bytes/str comparisons are errors there, as in the strictest CI
+    configurations): every sequence of <= 2 palette packets cut at every byte offset, prefix lengths 0 and 2, through bytes, BytesIO (read
+    sizes None and 4), a socket whose peer closes after the data, and a definition's generator.  Prints {"ok": n, "bad": [...]}."""
+    import json
+    import logging
+    logging.disable(logging.CRITICAL)
+    pal = framing.palette_packets()
+    bad, ok = [], 0
+    with owned_clock():
+        for seq in framing.all_sequences(pal, 2, 1):
+            for k in (0, 2):
+                stream = framing.build_stream([pal[i] for i in seq], k)
+                for cut in range(len(stream) + 1):
+                    data = stream[:cut]
+                    for src_kind in ("bytes", "bytesio", "bytesio-r4", "socket", "pg"):
+                        try:
+                            if src_kind == "socket":
+                                src = ScriptedSocket(data, lambda n, remaining, key, sock: min(n, remaining, 3), inspect=False)
+                            else:
+                                src = data if src_kind in ("bytes", "pg") else io.BytesIO(data)
+                            g = _make_gen("pg" if src_kind == "pg" else "ccsds", src, 4 if src_kind in ("bytesio-r4", "socket") else None, k)
+                            items, end = pull(g, horizon=len(data) // 7 + 2)
+                            why = _judge([_raw("pg" if src_kind == "pg" else "ccsds", i) for i in items], end if isinstance(end, str) else end[0], data, k)
+                        except BaseException as e:  # noqa: BLE001
+                            why = f"escaped: {type(e).__name__}: {e}"[:160]
+                        if why:
+                            bad.append({"seq": list(seq), "k": k, "cut": cut, "source": src_kind, "why": why})
+                        else:
+                            ok += 1
+    print(json.dumps({"ok": ok, "bad": bad[:30], "n_bad": len(bad)}))
+
+
+def _strict_interpreter(t: Tally):
+    import json
+    import subprocess
+    import sys
+    from mc import VERIF_ROOT
+    p = subprocess.run([sys.executable, "-bb", "-c", "from mc.checks.c10 import strict_probe; strict_probe()"], cwd=VERIF_ROOT,
+                       env=dict(os.environ, PYTHONDONTWRITEBYTECODE="1"), capture_output=True, text=True, timeout=900)
+    if p.returncode != 0:
+        t.violation({"kind": "strict-interpreter-probe-failed"}, {"strict": True}, observed=p.stderr[-400:])
+        return
+    res = json.loads(p.stdout.strip().splitlines()[-1])
+    t.evals += res["ok"] + res["n_bad"]
+    t.outcomes["python -bb:ok"] += res["ok"]
+    for b in res["bad"][:10]:
+        t.violation({"kind": "termination", "source": b["source"], "interpreter": "python -bb"}, {"strict": True, **b}, observed=b["why"],
+                    note="under `python -bb` (bytes/str confusion is an error) the generator does not end cleanly on this input")
+
+
 def run(ctx):
     pal = framing.palette_packets()
     max_len = 3 if ctx.quick else 4
@@ -454,6 +505,7 @@ def run(ctx):
     tally.merge(fan_out(_task_handles, [{"n": n, "k": k, "work": ctx.work} for n in (3, 40, 300, 400) for k in (0, 4)], jobs=8, seed=ctx.seed))
     tally.merge(fan_out(_task_touched, [{"items": ch} for ch in chunked([(seq, k) for seq, k in items if len(seq) <= 3], 40)], jobs=ctx.jobs, seed=ctx.seed))
     _real_socketpair_smoke(tally)
+    _strict_interpreter(tally)
     coverage = {
         "states": tally.states,
         "transitions": tally.transitions,
@@ -462,7 +514,7 @@ def run(ctx):
         "bound": (f"every sequence of 1..{max_len} palette packets x prefix lengths {ks} cut at EVERY byte offset, for bytes, "
                   "BytesIO with every read size (and with show_progress=True), a gzip file object and a BufferedReader over a 3-bytes-per-read raw stream (read sizes None, 7), read/write file handles as a producer leaves them (w+b, TemporaryFile, r+b appended, the generator object created before the writes / before the caller reads from the handle; 3..400 records written one write() each and not flushed; whole and cut by 1 or 9 bytes), file objects holding complete streams that the caller closes / rewinds after the first / the last packet (default read size, buffer-trim literal as shipped and rewritten to 0 and 17), and a scripted socket where the peer may close at every recv() choice point (also with show_progress=True, and as a message-preserving socket whose messages fit the read size, on the streams of <= 2 packets) "
                   "under every fragmentation; all byte strings of length <= 2; all strings of length <= "
-                  f"{8 if ctx.quick else 9} over {{00,01,FF}}; both ccsds_generator and packet_generator(header-only definition)"),
+                  f"{8 if ctx.quick else 9} over {{00,01,FF}}; both ccsds_generator and packet_generator(header-only definition); in a second interpreter started with -bb: every sequence of <= 2 packets cut at every offset through bytes, BytesIO, a closing socket and a definition's generator"),
         "rule": ("one evaluation = one complete execution of a generator over one (stream, cut point / close point, source, read size, "
                  "schedule); non-trivial = distinct truncated streams (cut strictly inside the stream) and arbitrary strings "
                  "long enough to contain a header"),
@@ -473,6 +525,10 @@ def run(ctx):
 
 
 def replay(case):
+    if case.get("strict"):
+        t = Tally()
+        _strict_interpreter(t)
+        return next((v for v in t.violations if all(v["case"].get(x) == case.get(x) for x in ("seq", "k", "cut", "source"))), t.violations[0] if t.violations else None)
     if case.get("touched"):
         t = _task_touched({"items": [(tuple(case["seq"]), case["k"])]})
         for v in t.violations:
